@@ -60,6 +60,23 @@ def add_EOS(cfg, eos=None):
     return new
 
 
+class _CKYModel:
+    """Adapts `IncrementalCKY` to the parser interface used by `BoolCFGLM`."""
+
+    def __init__(self, parser):
+        self.parser = parser
+
+    def chart(self, context):
+        context = tuple(context)
+        return (self.parser.chart(context), context)
+
+    def next_token_weights(self, chart):
+        return self.parser.next_token_weights(*chart)
+
+    def clear_cache(self):
+        self.parser.clear_cache()
+
+
 class BoolCFGLM(LM):
     """Language model interface for Boolean-weighted CFGs.
 
@@ -94,9 +111,10 @@ class BoolCFGLM(LM):
 
             self.model = Earley(cfg.prefix_grammar)
         elif alg == "cky":
-            from genlm.grammar.parse.cky import CKYLM
+            from genlm.grammar.parse.cky import IncrementalCKY
 
-            self.model = CKYLM(cfg)
+            # same interface as `Earley`: chart(context), next_token_weights(chart)
+            self.model = _CKYModel(IncrementalCKY(cfg.cnf.prefix_grammar.cnf))
         else:
             raise ValueError(f"unrecognized option {alg}")
         super().__init__(eos=EOS, V=cfg.V)
